@@ -508,10 +508,13 @@ async def relogin_repeat(net, hyg, plan):
         for j in range(k):
             conn = await p.open_data(port)
             cmd = "RETR /f.bin" if d == "download" else f"STOR /up{j}.bin"
+            # (refused_first: a USER that is refused with 530 comes before each login - the account's limit is the connection's, a
+            # failed attempt in between does not start it from scratch)
+            again = (["USER no-such-account"] if plan.get("refused_first") else []) + login
             if plan["pipelined"]:
-                p.send("\r\n".join(login + [cmd]))
+                p.send("\r\n".join(again + [cmd]))
             else:
-                for ln in login:
+                for ln in again:
                     await p.cmd(ln, wait=120)
                 p.send(cmd)
             dr, dw = conn
@@ -535,7 +538,7 @@ async def relogin_repeat(net, hyg, plan):
                     if rr in (None, "EOF"):
                         break
                     codes_seen.append(rr.code)
-                    if rr.code[0] in "245" and rr.code not in ("230", "200"):
+                    if rr.code[0] in "245" and rr.code not in ("230", "200", "530"):
                         break
         dur = loop.time() - t0
         mon["relogin_repeat"] += 1
@@ -745,6 +748,8 @@ def gen_cases(tier, seed):
                 for password in ((False,) if tier == "quick" else (False, True)):
                     rel.append({"kind": "relogin_repeat", "seed": seed, "level": level, "direction": d, "pipelined": pipelined, "password": password,
                                 "L": rng.choice([8192, 16384]), "block": rng.choice([4096, 8192]), "k": rng.choice([8, 10, 14])})
+                    rel.append({"kind": "relogin_repeat", "seed": seed, "level": level, "direction": d, "pipelined": pipelined, "password": password,
+                                "L": [8192, 16384][len(rel) % 2], "block": [4096, 8192][len(rel) % 2], "k": 10, "refused_first": True})
     for level in ("user_connection", "user"):
         for d in ("download", "upload"):
             rel.append({"kind": "relogin_mid_transfer", "seed": seed, "level": level, "direction": d, "L": rng.choice([100000, 200000]),
